@@ -7,6 +7,7 @@ CONSTANTS
   FixTomb = TRUE
   FixCache = TRUE
   FixEmptyScan = TRUE
+  GhostCache = FALSE
   WithHist = FALSE
 INIT Init
 NEXT Next
